@@ -184,3 +184,15 @@ attributes #9 = { readnone "k"="v" }
 !named = !{!7, !12}
 !7 = !{i32 42, !12}
 !12 = distinct !{!"x"}
+;;; ATOM global/comdat-numeric-names
+$"0" = comdat any
+$"42" = comdat any
+$"1" = comdat any
+@0 = global i32 0, comdat($"0")
+@"42" = global i32 0, comdat
+define void @1() comdat($"1") {
+  ret void
+}
+define void @f() comdat($"42") {
+  ret void
+}
